@@ -205,8 +205,10 @@ func (dmx *Demuxer) updateData(ds []*DemuxerData) (d *DemuxerData) {
 		dmx.dataBuffer = append(dmx.dataBuffer, ds[1:]...)
 
 		// Update program map
+		// Only the PAT PID carries the program association table: a section with the PAT table id found on another PID
+		// doesn't say anything about the program map PIDs
 		for _, v := range ds {
-			if v.PAT != nil {
+			if v.PAT != nil && v.PID == PIDPAT {
 				for _, pgm := range v.PAT.Programs {
 					// Program number 0 is reserved to NIT
 					if pgm.ProgramNumber > 0 {
